@@ -103,6 +103,7 @@ pub fn obj_facts(obj: &ObjSpec, oti: &OtiSpec, spec: &SenderSpec, transfer_len: 
         SourceSpec::ChunkedAt(..) => "chunked_at",
         SourceSpec::File => "file",
         SourceSpec::BufFile => "buffile",
+        SourceSpec::SeekFailsOnce(_) => "seek_fails_once",
         SourceSpec::PathRam => "path_ram",
         SourceSpec::PathNoRam => "path_noram",
     }));
